@@ -523,7 +523,9 @@ pub fn evaluate_single(cfg: &RunCfg, rec: &RunRecord) -> (Vec<Finding>, Facts) {
     }
 
     // ---------------------------------------------------------------- C05: the end is permanent
-    if !has_skip && !has_panic {
+    // (also in histories with skip_to_end: an end that was reported stays the end, whoever and
+    // whatever caused it; pulls that were in flight at the time are not "started afterwards")
+    if !has_panic {
         let first_end = calls.iter().filter(|c| is_end_report(c)).map(|c| c.ret).min();
         if let Some(r) = first_end {
             for (ci, c) in calls.iter().enumerate() {
@@ -887,7 +889,14 @@ pub fn evaluate_single(cfg: &RunCfg, rec: &RunRecord) -> (Vec<Finding>, Facts) {
     }
 
     // ---------------------------------------------------------------- C15: scoped allocation ledger
-    if rec.leaked.0 > 0 && cfg.panic.is_none() {
+    // (a panic of the caller's own code - its closure, or while it holds a chunk - is no excuse
+    // for the crate to keep memory; panics inside the wrapped iterator, a clone or a destructor
+    // are judged by C18 / C08 only)
+    let caller_side_panic = matches!(
+        cfg.panic,
+        Some((crate::work::PanicSite::Closure, _)) | Some((crate::work::PanicSite::Consumer, _))
+    );
+    if rec.leaked.0 > 0 && (cfg.panic.is_none() || caller_side_panic) {
         out.push(f(
             "C15",
             "leak",
